@@ -27,8 +27,8 @@ from saml2_tophat.ident import IdentDB
 from saml2_tophat.saml import NameID
 
 CLAIM = {
-    "text": "Coq theorems (Props/C18.v) over an executable model of ident.code/decode (urllib quote with safe='/' / unquote) and of IdentDB as a state machine over ONE string-keyed map exactly as the Python uses its dict/shelve (space-joined codes under the user id, user id under the identifier text). Codec, for ALL byte strings in all five fields (induction, not sampling): decode(code n) = normalised n (only ''/None are identified), code is injective on normalised identifiers and never contains a space. Store, by induction over ANY sequence of public operations (issue, persistent/transient, construct, mapping request, manage-name-id, remove_remote, remove_local, lookups) whose user ids and identifier texts come from disjoint key spaces and whose digest source never yields a user id: every code recorded under a user decodes to an identifier whose text resolves (find_local_id) to exactly that user, and no two recorded identifiers share a text. Persistent identifiers: the call after an issuing call returns the same identifier and changes nothing, later issues for anybody never change it; identifiers matched for different users or different non-empty SP qualifiers have different texts. Every newly issued identifier text is not a key of the previous state (the create_id loop), for every digest stream. Refuted (kept visible, witnesses replayed on the code): with an EMPTY sp_name_qualifier persistent_nameid hands out an identifier without any text after a remove_remote; raw store() can re-bind an identifier; e-mail format checks freshness of the wrong string. Tie to the code: ident.ATTR and the three format constants are regenerated from source on every run; model vs real IdentDB after every step on exhaustive operation sequences over a small alphabet and long random histories (dict- and shelve-backed), codec on hostile field contents.",
-    "note": "Trusted: Coq kernel + vm_compute; the model is hand-written and tied to the code by the correspondence (exhaustive up to the stated length over the stated alphabets, random beyond). Strings are modelled as UTF-8 byte lists (UTF-8 encode/decode itself is not modelled; texts whose percent-escapes are not valid UTF-8 are generated but not compared). The digest source (sha256 over rndbytes) is an argument of the model (the list of values drawn during the call), never an axiom; its freshness w.r.t. user ids is an explicit hypothesis (op_wf). int() forms with whitespace/underscores/non-ASCII digits in decode and NameIDs without text in store() are outside the model. Partial: stability across manage-name-id when low-level calls created two non-transient identifiers for one (user, SP) is not claimed.",
+    "text": "Coq theorems (Props/C18.v) over an executable model of ident.code/decode (urllib quote with safe='/' / unquote) and of IdentDB as a state machine over ONE string-keyed map exactly as the Python uses its dict/shelve (space-joined codes under the user id, user id under the identifier text). The model follows the library WITH the two repairs proposed_fix/C18-1.diff (remove_remote deletes the user's entry when it removes the last identifier) and proposed_fix/C18-2.diff (remove_local no longer raises NameError on Python 3); the code before the repairs is kept as ..._before_fix definitions with refutation witnesses. Codec, for ALL byte strings in all five fields (induction, not sampling): decode(code n) = normalised n (only ''/None are identified), code is injective on normalised identifiers and never contains a space. Store, by induction over ANY sequence of public operations (issue, persistent/transient, construct, mapping request, manage-name-id, remove_remote, remove_local, lookups) whose user ids and identifier texts come from disjoint key spaces and whose digest source never yields a user id: EVERY element of the code list recorded under a user decodes to an identifier with a non-empty text that resolves (find_local_id) to exactly that user, whatever resolves to a user is recorded under that user, and no two recorded identifiers share a text. Persistent identifiers, full statements for ANY qualifiers including empty ones: whatever persistent_nameid/match_local_id finds, and whatever a mapping request returns for any policy, has a non-empty text resolving to the right principal; the call after an issuing call returns the same identifier and changes nothing, later issues for anybody never change it; identifiers matched for different users or different SP/name qualifiers (as Python reads them: None = '') have different texts. remove_local(u) in any reachable state returns None, leaves u without recorded identifier, no text resolves to u any more, and records and resolutions of all other users are untouched. Every newly issued identifier text is not a key of the previous state (the create_id loop), for every digest stream. Outside the hypotheses (kept visible as witnesses): raw store() can re-bind an identifier; e-mail format checks freshness of the wrong string. Tie to the code: ident.ATTR and the three format constants are regenerated from source on every run; model vs real IdentDB after every step on exhaustive operation sequences over a small alphabet and long random histories (dict- and shelve-backed), codec on hostile field contents.",
+    "note": "Trusted: Coq kernel + vm_compute; the model is hand-written and tied to the code by the correspondence (exhaustive up to the stated length over the stated alphabets, random beyond). The check expects /repo + proposed_fix/C18-1.diff + proposed_fix/C18-2.diff: on the code without them the correspondence and the oracle keys persistent:identifier-without-text:*, map_req:identifier-without-text:*, remove_local:raises-NameError report the defects again. Strings are modelled as UTF-8 byte lists (UTF-8 encode/decode itself is not modelled; texts whose percent-escapes are not valid UTF-8 are generated but not compared). The digest source (sha256 over rndbytes) is an argument of the model (the list of values drawn during the call), never an axiom; its freshness w.r.t. user ids is an explicit hypothesis (op_wf). int() forms with whitespace/underscores/non-ASCII digits in decode, NameIDs without text in store(), and remove_local meeting a stored code without text on a shelve (AttributeError instead of the swallowed KeyError; not reachable through the operations) are outside the model. Partial: stability across manage-name-id when low-level calls created two non-transient identifiers for one (user, SP) is not claimed.",
     "technique": "machine-checked proof (Coq; induction over strings and over operation sequences) + regenerated constants + exhaustive/random model-vs-implementation correspondence after every step + reference-map oracle",
 }
 TRUSTED = [
@@ -39,6 +39,8 @@ TRUSTED = [
 ASSUMPTIONS = [
     "key-space hypothesis of the store theorems (op_wf): user ids satisfy is_user, identifier texts handed in by callers and every digest (also digest@domain) do not; all strings are byte lists (< 256)",
     "e-mail format identifiers are excluded from the store invariant unless IdentDB.domain is empty (the create_id loop checks the digest, not digest@domain: C18_email_collision_refuted)",
+    "remove_local is called with a user id (is_user): called with an identifier text it deletes that text's reverse entry only, which is key-space mixing by the caller",
+    "the library state is /repo + proposed_fix/C18-1.diff + proposed_fix/C18-2.diff",
 ]
 RULE = ("history unit: EVERY operation sequence of the stated length over the operation alphabet (users u1,u2 x SP qualifiers sp1,sp2,'' x "
         "persistent/transient/construct/mapping/manage/remove on first- and last-issued identifiers, scripted colliding digests) plus random long "
@@ -437,7 +439,7 @@ def unit_exhaustive(ctx, scripted):
         if w.changes:
             ctx.nontriv(("x", seq))
     # one level deeper over the operations that interact most (issue / remove / manage), no lookups-only ops
-    deep = [alpha[i] for i in (0, 1, 3, 4, 6, 7, 8)]
+    deep = [alpha[i] for i in (0, 1, 3, 4, 6, 7, 8, 14)]
     dl = length + 1
     for seq in itertools.product(range(len(deep)), repeat=dl):
         w = World(ctx, scripted)
@@ -625,15 +627,45 @@ def _shape(fs):
 
 # ------------------------------------------------------------------ witnesses of the refuted statements, on the implementation
 def unit_witnesses(ctx, scripted):
-    """the Coq *_refuted witnesses replayed on the real IdentDB; they feed the oracle like any other history"""
+    """the histories of the Coq *_before_fix_refuted witnesses (F10, F11, F12 of Props/C18.v) replayed on the real
+    IdentDB; they feed the oracle like any other history, so each repaired defect is reported again if it returns"""
+    cases = []
+    # F10: persistent identifier with empty qualifiers after the only identifier was removed (fix C18-1)
     w = World(ctx, scripted)
-    w.apply(("persistent", "u1", "", "", ["a"]))
+    for u, d1, d2 in (("u1", "a", "b"), ("u2", "c", "d")):
+        w.apply(("persistent", u, "", "", [d1]))
+        if w.issued:
+            w.apply(("remove_remote", w.issued[-1]))
+        w.apply(("persistent", u, "", "", [d2]))
+    cases.append(w.case("witness:F10"))
+    ctx.sample(cases[-1]["show"])
+    # F11: mapping request with an empty policy after the only identifier was removed (fix C18-1)
+    w = World(ctx, scripted)
+    w.apply(("transient", "u1", "sp1", "", ["a"]))
     if w.issued:
-        w.apply(("remove_remote", w.issued[0]))
-    w.apply(("persistent", "u1", "", "", ["b"]))
-    c = w.case("witness:F10")
-    ctx.correspond("witness_empty_identifier", "Model.Ident", "show_history", "(cfg * list op)", [c])
-    ctx.sample(c["show"])
+        w.apply(("remove_remote", w.issued[-1]))
+    w.apply(("transient", "u1", "sp2", "", ["b"]))
+    if w.issued:
+        w.apply(("map_req", [None, None, None, None, w.issued[-1][4]], None, None, None, []))
+    cases.append(w.case("witness:F11"))
+    # F12: remove_local withdraws the identifiers of one user and nothing else (fix C18-2), both back ends
+    tmp = ctx.work + "/shelve-w"
+    shutil.rmtree(tmp, ignore_errors=True)
+    os.makedirs(tmp)
+    for backend in (None, tmp + "/db"):
+        w = World(ctx, scripted, backend=backend)
+        w.apply(("persistent", "u1", "sp1", "", ["a"]))
+        w.apply(("transient", "u1", "sp2", "", ["b"]))
+        w.apply(("persistent", "u2", "sp1", "", ["c"]))
+        w.apply(("remove_local", "u1"))
+        w.apply(("persistent", "u1", "sp1", "", ["a"]))
+        w.apply(("remove_local", "nobody"))
+        if backend:
+            w.idb.close()
+        cases.append(w.case("witness:F12:%s" % ("shelve" if backend else "dict")))
+    shutil.rmtree(tmp, ignore_errors=True)
+    ctx.sample(cases[-1]["show"])
+    ctx.correspond("witness_histories", "Model.Ident", "show_history", "(cfg * list op)", cases)
 
 
 def _timed(ctx, name, f, *a):
